@@ -102,7 +102,7 @@ func (c *Ctx) argIsFlag(v ssa.Value, flag string) bool {
 		return false
 	}
 	for _, r := range c.flagRegs() {
-		if r.Name == flag && r.ValueArg == u.X {
+		if r.Name == flag && c.sameAddr(r.ValueArg, u.X) {
 			return true
 		}
 	}
